@@ -768,7 +768,8 @@ EXTRACTORS = {
     # re-checks everything (no separate build here)
     "C01": [gen_limits, gen_tbcodes],
     "C02": [gen_limits, gen_tbcodes],
-    "C16": [gen_limits, verify_modules(["RbV.Thm.GenLimits"])],
+    # C16: Thm/C16.lean imports RbV.Thm.GenLimits and restates; Model/PoaBanded.lean, Drv/C16.lean use Gen.Limits.minScorePoa
+    "C16": [gen_limits],
     "C03": [gen_occ],
     "C04": [gen_occ],
 }
